@@ -37,7 +37,7 @@ Val(e) ==
          ELSE IF b[2][2] = 1 /\ b[2][1] \in 0..4 /\ a[2][1] # 0
               THEN <<~Big(RPow(a[2], b[2][1])), RPow(a[2], b[2][1])>> ELSE <<FALSE, RI(0)>>
 \* ---- printers ----
-Prec(e) == IF e.t \in {"num", "var"} THEN 9 ELSE IF e.t = "neg" THEN 3
+Prec(e) == IF e.t \in {"num", "var", "call"} THEN 9 ELSE IF e.t = "neg" THEN 3
            ELSE IF e.op = "**" THEN 4 ELSE IF e.op \in {"*", "/"} THEN 2 ELSE 1
 P(s) == "(" \o s \o ")"
 RECURSIVE PrMin(_, _), PrFull(_)
@@ -45,6 +45,7 @@ RECURSIVE PrMin(_, _), PrFull(_)
 PrMin(e, sp) ==
   CASE e.t = "num" -> ToString(e.v)
     [] e.t = "var" -> e.n
+    [] e.t = "call" -> "f(" \o PrMin(e.a, sp) \o ")"
     [] e.t = "neg" -> "-" \o (IF e.a.t = "neg" \/ (e.a.t = "bin" /\ e.a.op \in {"+", "-"}) THEN P(PrMin(e.a, sp)) ELSE PrMin(e.a, sp))
     [] e.t = "bin" ->
          LET l == PrMin(e.a, sp) r == PrMin(e.b, sp)
@@ -54,6 +55,7 @@ PrMin(e, sp) ==
 PrFull(e) ==
   CASE e.t = "num" -> ToString(e.v)
     [] e.t = "var" -> e.n
+    [] e.t = "call" -> "f(" \o PrFull(e.a) \o ")"
     [] e.t = "neg" -> P("-" \o PrFull(e.a))
     [] e.t = "bin" -> P(PrFull(e.a) \o e.op \o PrFull(e.b))
 \* ---- derivative with respect to variable x (C14) ----
@@ -77,7 +79,7 @@ ConstExp(e) == CASE e.t \in {"num", "var"} -> TRUE [] e.t = "neg" -> ConstExp(e.
 \* the power rule of D is the derivative with respect to v as soon as no exponent depends on v (the exponent may depend on
 \* the other variable: d/dx x**y = y*x**(y-1)); an exponent that depends on v needs a logarithm: not judged exactly
 RECURSIVE DependsOn(_, _)
-DependsOn(e, v) == CASE e.t = "num" -> FALSE [] e.t = "var" -> e.n = v [] e.t = "neg" -> DependsOn(e.a, v)
+DependsOn(e, v) == CASE e.t = "num" -> FALSE [] e.t = "var" -> e.n = v [] e.t = "neg" -> DependsOn(e.a, v) [] e.t = "call" -> DependsOn(e.a, v)
                      [] e.t = "bin" -> DependsOn(e.a, v) \/ DependsOn(e.b, v)
 RECURSIVE ExpIndep(_, _)
 ExpIndep(e, v) == CASE e.t \in {"num", "var"} -> TRUE [] e.t = "neg" -> ExpIndep(e.a, v)
@@ -118,6 +120,26 @@ PrLFull(c) ==
     [] c.t = "not" -> "!" \o P(PrLFull(c.a))
 PrCond(e) == PrL(e.c) \o "?" \o PrMin(e.a, "") \o ":" \o PrMin(e.b, "")
 PrCondFull(e) == PrLFull(e.c) \o " ? " \o PrFull(e.a) \o " : " \o PrFull(e.b)
+\* ---- parameters and external functions (C13: resolveDependencies, parameters turned into variables) --------------
+(* A formula may refer to names that are not variables: parameters, bound by an ExternalFunctionManager to other formulas
+   (here p and q, q's formula may use p), and functions (here f, a formula in the variable u, which may use p and q),
+   written f(a): [t |-> "call", a].  The value of the formula is the value of the tree obtained by substitution.
+   resolveDependencies() must preserve it; createFunctionByChangingParametersIntoVariables({"p"}) makes p a variable of the
+   returned function when the formula names p itself (it is refused otherwise): with that variable set to the value of p the
+   value is preserved.  (What happens for another value of the variable when q or f also use p is not specified by the
+   documentation nor fixed by the upstream tests - the formulas of q and f keep the manager's p - and is not judged;
+   Resolved(g, env, pv) with pv a number gives the reading in which p is replaced everywhere.) *)
+Call(a) == [t |-> "call", a |-> a]
+RECURSIVE SubstVar(_, _, _)
+SubstVar(e, n, by) == CASE e.t = "num" -> e [] e.t = "var" -> (IF e.n = n THEN by ELSE e) [] e.t = "neg" -> Neg(SubstVar(e.a, n, by))
+                        [] e.t = "bin" -> Bin(e.op, SubstVar(e.a, n, by), SubstVar(e.b, n, by)) [] e.t = "call" -> Call(SubstVar(e.a, n, by))
+RECURSIVE Inline(_, _)
+Inline(e, fb) == CASE e.t \in {"num", "var"} -> e [] e.t = "neg" -> Neg(Inline(e.a, fb)) [] e.t = "bin" -> Bin(e.op, Inline(e.a, fb), Inline(e.b, fb))
+                   [] e.t = "call" -> SubstVar(fb, "u", Inline(e.a, fb))
+\* env = [p, q, f]: formulas of the parameters and body of f; pv = tree standing for p (its formula, or a number when p is a variable)
+Resolved(g, env, pv) == LET vq == SubstVar(env.q, "p", pv)
+                            fb == SubstVar(SubstVar(env.f, "q", vq), "p", pv)
+                        IN  SubstVar(SubstVar(Inline(g, fb), "q", vq), "p", pv)
 \* theorems of the oracle: printing then reading by the documented rules is the identity on a few examples
 Theorems == /\ PrMin(Bin("-", Num(1), Bin("-", Num(2), Var("x"))), "") = "1-(2-x)"
             /\ PrMin(Bin("-", Bin("-", Num(1), Num(2)), Var("x")), "") = "1-2-x"
@@ -131,6 +153,8 @@ Theorems == /\ PrMin(Bin("-", Num(1), Bin("-", Num(2), Var("x"))), "") = "1-(2-x
             /\ PrL(And(Or(Cmp("<", Var("x"), Var("y")), Cmp("<", Var("y"), Var("x"))), Cmp("==", Var("x"), Num(3)))) = "(x<y||y<x)&&x==3"
             /\ Holds(Or(Cmp("<", Var("x"), Var("y")), And(Cmp("<", Var("y"), Var("x")), Cmp("==", Var("x"), Num(3)))))
             /\ ~Holds(And(Or(Cmp("<", Var("x"), Var("y")), Cmp("<", Var("y"), Var("x"))), Cmp("==", Var("x"), Num(3))))
+            /\ Val(Resolved(Bin("+", Call(Var("q")), Var("p")), [p |-> Num(3), q |-> Bin("*", Var("p"), Num(2)), f |-> Bin("-", Bin("*", Var("u"), Var("u")), Var("p"))], Num(3)))[2] = RI(36)
+            /\ Val(Resolved(Bin("+", Call(Var("q")), Var("p")), [p |-> Num(3), q |-> Bin("*", Var("p"), Num(2)), f |-> Bin("-", Bin("*", Var("u"), Var("u")), Var("p"))], Num(5)))[2] = RI(100)
             /\ ExpIndep(Bin("**", Var("x"), Var("y")), "x") /\ ~ExpIndep(Bin("**", Var("x"), Var("y")), "y")
             /\ Val(D(Bin("**", Var("x"), Var("y")), "x"))[2] = RI(12)                     \* y*x**(y-1) at (2, 3)
 =============================================================================
